@@ -23,7 +23,7 @@ from vlib.front import unparse, dotted, const_value, AnchorMissing
 
 A = 'phylib/io/array.py'
 M = 'phylib/io/model.py'
-FLOOR = 12
+FLOOR = 10
 EXPLANATION = ('proto/sym engines: SpikeSelector.__call__ is walked for every combination of flags and every outcome of its tests; '
                'the term stored for each cluster is parsed into (source, filters) and compared with the filters the specification '
                'demands under the same path facts; the stride formula and the chunk-membership test are compared as normal forms')
